@@ -806,4 +806,422 @@ theorem duration_roundtrip (s : Str) (d : Duration) (h : parseDuration false s =
     parseDuration false (durationString d) = .ok d :=
   duration_print_parse d (parsed_fields_ok s d h)
 
+
+/-! ## extended options (`options.Parse`) -/
+
+/-- no empty key, and equal keys carry equal values -/
+def Consistent (kvs : List (Str × Str)) : Prop :=
+  (∀ kv ∈ kvs, kv.1 ≠ []) ∧ (∀ kv ∈ kvs, ∀ kv' ∈ kvs, kv.1 = kv'.1 → kv.2 = kv'.2)
+
+/-- the loop of `options.Parse` on already split pairs -/
+def loopKV : List (Str × Str) → List (Str × Str) → Out (List (Str × Str))
+  | acc, [] => .ok acc
+  | acc, (k, v) :: r =>
+    if k = [] then .err .emptyKey
+    else match acc.lookup k with
+      | some v' => if v' ≠ v then .err .dupKey else loopKV acc r
+      | none => loopKV (acc ++ [(k, v)]) r
+
+theorem optionsLoop_eq (os : List Str) : ∀ acc, optionsLoop acc os = loopKV acc (os.map splitKeyValue) := by
+  induction os with
+  | nil => intro acc; rfl
+  | cons o os ih =>
+    intro acc
+    simp only [List.map_cons]
+    generalize hkv : splitKeyValue o = kv
+    obtain ⟨k, v⟩ := kv
+    unfold optionsLoop loopKV
+    simp only [hkv]
+    by_cases hk : k = []
+    · simp only [hk, if_true]
+    · simp only [hk, if_false]
+      cases hl : List.lookup k acc with
+      | none => exact ih _
+      | some v' =>
+        simp only
+        by_cases hv : v' ≠ v
+        · simp only [hv, if_true, ne_eq, not_false_eq_true]
+        · simp only [hv, if_false]; exact ih acc
+
+def Inv (acc done : List (Str × Str)) : Prop :=
+  (∀ kv ∈ done, kv.1 ≠ [] ∧ acc.lookup kv.1 = some kv.2) ∧ (∀ kv ∈ acc, kv ∈ done)
+
+theorem lookup_mem (acc : List (Str × Str)) (k v : Str) (h : acc.lookup k = some v) : (k, v) ∈ acc := by
+  obtain ⟨l1, l2, rfl, _⟩ := List.lookup_eq_some_iff.mp h
+  simp
+
+theorem loopKV_spec (rest : List (Str × Str)) : ∀ acc done, Inv acc done →
+    match loopKV acc rest with
+    | .ok m => Consistent (done ++ rest) ∧ (∀ kv ∈ done ++ rest, m.lookup kv.1 = some kv.2) ∧ (∀ kv ∈ m, kv ∈ done ++ rest)
+    | .err _ => ¬ Consistent (done ++ rest)
+    | .panic => False := by
+  induction rest with
+  | nil =>
+    intro acc done hinv
+    simp only [loopKV, List.append_nil]
+    refine ⟨⟨fun kv h => (hinv.1 kv h).1, ?_⟩, fun kv h => (hinv.1 kv h).2, hinv.2⟩
+    intro kv h kv' h' heq
+    have a := (hinv.1 kv h).2
+    have b := (hinv.1 kv' h').2
+    rw [heq, b] at a
+    injection a with a; exact a.symm
+  | cons kv r ih =>
+    intro acc done hinv
+    obtain ⟨k, v⟩ := kv
+    unfold loopKV
+    by_cases hk : k = []
+    · simp only [hk, if_true]
+      intro hc
+      exact hc.1 ([], v) (by simp) rfl
+    · simp only [hk, if_false]
+      cases hl : acc.lookup k with
+      | some v' =>
+        simp only
+        by_cases hv : v' ≠ v
+        · simp only [hv, if_true, ne_eq, not_false_eq_true]
+          intro hc
+          have hmem : (k, v') ∈ done := hinv.2 _ (lookup_mem acc k v' hl)
+          exact hv (hc.2 (k, v') (by simp [hmem]) (k, v) (by simp) rfl)
+        · have hv' : v' = v := by simpa using hv
+          subst hv'
+          simp only [ne_eq, not_true_eq_false, if_false]
+          have hinv' : Inv acc (done ++ [(k, v')]) := by
+            refine ⟨?_, fun kv h => by simp [hinv.2 kv h]⟩
+            intro kv h
+            rcases List.mem_append.mp h with h | h
+            · exact hinv.1 kv h
+            · simp only [List.mem_singleton] at h; subst h; exact ⟨hk, hl⟩
+          have := ih acc (done ++ [(k, v')]) hinv'
+          simpa [List.append_assoc] using this
+      | none =>
+        simp only
+        have hinv' : Inv (acc ++ [(k, v)]) (done ++ [(k, v)]) := by
+          refine ⟨?_, ?_⟩
+          · intro kv h
+            rcases List.mem_append.mp h with h | h
+            · obtain ⟨h1, h2⟩ := hinv.1 kv h
+              exact ⟨h1, by rw [List.lookup_append, h2]; rfl⟩
+            · simp only [List.mem_singleton] at h; subst h
+              exact ⟨hk, by rw [List.lookup_append, hl]; simp⟩
+          · intro kv h
+            rcases List.mem_append.mp h with h | h
+            · simp [hinv.2 kv h]
+            · simp only [List.mem_singleton] at h; subst h; simp
+        have := ih (acc ++ [(k, v)]) (done ++ [(k, v)]) hinv'
+        simpa [List.append_assoc] using this
+
+/-- **options are exact**: `options.Parse` accepts exactly the lists in which no key is empty and
+    equal keys carry equal values (first `=` splits, key lower-cased, both sides trimmed); the
+    returned map contains exactly the given pairs -/
+theorem options_exact (ins : List Str) :
+    match optionsParse ins with
+    | .ok m => Consistent (ins.map splitKeyValue) ∧ (∀ kv ∈ ins.map splitKeyValue, m.lookup kv.1 = some kv.2) ∧
+        (∀ kv ∈ m, kv ∈ ins.map splitKeyValue)
+    | .err _ => ¬ Consistent (ins.map splitKeyValue)
+    | .panic => False := by
+  unfold optionsParse
+  rw [optionsLoop_eq]
+  have := loopKV_spec (ins.map splitKeyValue) [] [] ⟨by simp, by simp⟩
+  simpa using this
+
+theorem consistentB_iff (kvs : List (Str × Str)) :
+    (kvs.all (fun kv => kv.1 ≠ []) && kvs.all (fun kv => kvs.all fun kv' => kv.1 != kv'.1 || kv.2 == kv'.2)) = true ↔
+      Consistent kvs := by
+  unfold Consistent
+  simp only [Bool.and_eq_true, List.all_eq_true, decide_eq_true_eq, Bool.or_eq_true, bne_iff_ne, beq_iff_eq]
+  constructor
+  · rintro ⟨h1, h2⟩
+    refine ⟨h1, fun kv h kv' h' heq => ?_⟩
+    rcases h2 kv h kv' h' with h3 | h3
+    · exact absurd heq h3
+    · exact h3
+  · rintro ⟨h1, h2⟩
+    refine ⟨h1, fun kv h kv' h' => ?_⟩
+    by_cases heq : kv.1 = kv'.1
+    · exact Or.inr (h2 kv h kv' h' heq)
+    · exact Or.inl heq
+
+/-- the transcription meets the executable options specification evaluated by the driver -/
+theorem options_specOK (ins : List Str) : specOptions ins (optionsParse ins) = true := by
+  have h := options_exact ins
+  unfold specOptions
+  simp only
+  cases hr : optionsParse ins with
+  | ok m =>
+    rw [hr] at h
+    obtain ⟨h1, h2, h3⟩ := h
+    rw [Bool.and_eq_true, Bool.and_eq_true]
+    refine ⟨⟨(consistentB_iff _).mpr h1, ?_⟩, ?_⟩
+    · rw [List.all_eq_true]; intro kv hkv; simp [h2 kv hkv]
+    · rw [List.all_eq_true]; intro kv hkv; simp [h3 kv hkv]
+  | err e =>
+    rw [hr] at h
+    simp only [Bool.not_eq_true']
+    cases hb : (List.all (List.map splitKeyValue ins) (fun kv => kv.1 ≠ []) &&
+        List.all (List.map splitKeyValue ins) (fun kv => List.all (List.map splitKeyValue ins) fun kv' => kv.1 != kv'.1 || kv.2 == kv'.2)) with
+    | false => rfl
+    | true => exact absurd ((consistentB_iff _).mp hb) h
+  | panic => rw [hr] at h; exact h.elim
+
+
+/-! ## shell strings (`backend.SplitShellStrings`) -/
+
+theorem splitShell_no_panic (data : Str) : splitShellStrings data ≠ .panic := by
+  unfold splitShellStrings
+  simp only
+  split
+  · intro h; cases h
+  · split
+    · intro h; cases h
+    · split <;> (intro h; cases h)
+
+/-- fields are never empty -/
+theorem splitLoop_fields_nonempty (data : Str) : ∀ (st : Splitter) (cur : Option Str) (acc : List Str),
+    (∀ f, cur = some f → f ≠ []) → (∀ f ∈ acc, f ≠ []) → ∀ f ∈ (splitLoop st cur acc data).2, f ≠ [] := by
+  induction data with
+  | nil =>
+    intro st cur acc hc ha f hf
+    cases cur with
+    | none => exact ha f hf
+    | some g =>
+      simp only [splitLoop, List.mem_append, List.mem_singleton] at hf
+      rcases hf with hf | hf
+      · exact ha f hf
+      · subst hf; exact hc f rfl
+  | cons c cs ih =>
+    intro st cur acc hc ha
+    unfold splitLoop
+    generalize isSplitChar st c = r
+    obtain ⟨st', split⟩ := r
+    simp only
+    cases split with
+    | true =>
+      simp only [if_true]
+      cases cur with
+      | none => exact ih st' none acc (by simp) ha
+      | some g =>
+        refine ih st' none (acc ++ [g]) (by simp) ?_
+        intro f hf
+        rcases List.mem_append.mp hf with hf | hf
+        · exact ha f hf
+        · simp only [List.mem_singleton] at hf; subst hf; exact hc f rfl
+    | false =>
+      simp only [Bool.false_eq_true, if_false]
+      exact ih st' _ acc (by intro f hf; injection hf with hf; subst hf; simp) ha
+
+/-- without quotes and backslashes the splitter is `strings.FieldsFunc(data, unicode.IsSpace)` -/
+theorem splitLoop_plain (data : Str) : ∀ (st : Splitter) (cur : Option Str) (acc : List Str),
+    data.all plainChar = true → st.quote = 0 → st.lastChar ≠ 92 →
+    (splitLoop st cur acc data).2 = acc ++ fieldsSpace cur data ∧ (splitLoop st cur acc data).1.quote = 0 := by
+  induction data with
+  | nil =>
+    intro st cur acc _ hq _
+    cases cur <;> simp [splitLoop, fieldsSpace, hq]
+  | cons c cs ih =>
+    intro st cur acc hp hq hl
+    simp only [List.all_cons, Bool.and_eq_true] at hp
+    obtain ⟨hpc, hps⟩ := hp
+    simp only [plainChar, Bool.and_eq_true, bne_iff_ne, ne_eq] at hpc
+    have hstep : isSplitChar st c = ({ st with lastChar := c }, isSpace c) := by
+      unfold isSplitChar
+      have h1 : ¬ (st.lastChar ≠ 92 ∧ st.quote ≠ 0 ∧ c = st.quote) := by simp [hq]
+      have h2 : ¬ (st.lastChar ≠ 92 ∧ st.quote = 0 ∧ (c = 34 ∨ c = 39)) := by
+        intro h; rcases h.2.2 with h | h
+        · exact hpc.1.1 h
+        · exact hpc.1.2 h
+      rw [if_neg h1, if_neg h2]
+      have : (c == 92) = false := by simpa using hpc.2
+      simp [hq, hpc.2]
+    unfold splitLoop fieldsSpace
+    rw [hstep]
+    simp only
+    cases hsp : isSpace c with
+    | true =>
+      simp only [if_true]
+      cases cur with
+      | none => exact ih _ none acc hps hq hpc.2
+      | some g =>
+        have := ih { st with lastChar := c } none (acc ++ [g]) hps hq hpc.2
+        simpa [List.append_assoc] using this
+    | false =>
+      simp only [Bool.false_eq_true, if_false]
+      exact ih _ _ acc hps hq hpc.2
+
+/-- the transcription meets the executable shell-split specification evaluated by the driver:
+    no panic, no empty field, at least one field when accepted, plain strings split at white space -/
+theorem shell_specOK (data : Str) : specShell data (splitShellStrings data) = true := by
+  have hne := splitLoop_fields_nonempty data ⟨0, 0⟩ none [] (by simp) (by simp)
+  unfold specShell
+  cases hr : splitShellStrings data with
+  | panic => exact absurd hr (splitShell_no_panic data)
+  | ok strs =>
+    unfold splitShellStrings at hr
+    simp only at hr
+    split at hr
+    · cases hr
+    · split at hr
+      · cases hr
+      · split at hr
+        · cases hr
+        · rename_i h1 h2 h3
+          injection hr with hr
+          subst hr
+          simp only [Bool.and_eq_true, Bool.or_eq_true, Bool.not_eq_true', decide_eq_true_eq, List.all_eq_true, beq_iff_eq]
+          refine ⟨⟨h3, fun f hf => hne f hf⟩, ?_⟩
+          by_cases hp : data.all plainChar = true
+          · right
+            have := (splitLoop_plain data ⟨0, 0⟩ none [] hp rfl (by decide)).1
+            simpa using this
+          · left; simpa using hp
+  | err e =>
+    simp only [Bool.or_eq_true, Bool.not_eq_true', Bool.and_eq_true, beq_iff_eq]
+    by_cases hp : data.all plainChar = true
+    · right
+      obtain ⟨h1, h2⟩ := splitLoop_plain data ⟨0, 0⟩ none [] hp rfl (by decide)
+      unfold splitShellStrings at hr
+      simp only at hr
+      have hq1 : ¬ ((splitLoop ⟨0, 0⟩ none [] data).1.quote = 39) := by rw [h2]; decide
+      have hq2 : ¬ ((splitLoop ⟨0, 0⟩ none [] data).1.quote = 34) := by rw [h2]; decide
+      simp only [hq1, hq2, if_false] at hr
+      split at hr
+      · rename_i hempty
+        injection hr with hr
+        rw [h1] at hempty
+        simp only [List.nil_append] at hempty
+        exact ⟨hempty, by rw [← hr]⟩
+      · cases hr
+    · left; simpa using hp
+
+
+/-! ## check --read-data-subset (`checkFlags`) -/
+
+theorem sizeDenotes_of_not_ok (s : Str) (h : ∀ v, parseBytes s ≠ .ok v) (v : Int) (hd : sizeDenotes s = some v) :
+    (decide (0 < v) && decide (v < (two63 : Int))) = false := by
+  simp only [Bool.and_eq_false_iff, decide_eq_false_iff_not]
+  by_cases hin : 0 < v ∧ v < 9223372036854775808
+  · exact absurd ((parseBytes_ok_iff s v).mpr ⟨hd, by omega, hin.2⟩) (h v)
+  · by_cases h0 : 0 < v
+    · right; intro hlt; exact hin ⟨h0, by unfold two63 at hlt; simpa using hlt⟩
+    · left; exact h0
+
+/-- **check subsets are exact**: (after the fix of the NaN comparison) a `--read-data-subset` value is
+    accepted exactly when it denotes `n/t` with `1 ≤ n ≤ t ≤ totalBucketsMax`, a percentage in
+    `(0, 100]`, or a size above 0 — and `--read-data` is not given as well -/
+theorem flags_specOK (M : Nat) (rd : Bool) (s : Str) (pct : Pct) :
+    specFlags M rd s pct (checkFlags false M rd s pct) = true := by
+  unfold specFlags checkFlags
+  by_cases h1 : rd = true ∧ s ≠ []
+  · simp only [h1, and_self, if_true]
+    simp [h1.1, h1.2]
+  · simp only [h1, if_false]
+    by_cases hs : s = []
+    · simp [hs]
+    · have hrd : rd = false := by
+        cases rd with
+        | false => rfl
+        | true => exact absurd ⟨rfl, hs⟩ h1
+      subst hrd
+      simp only [hs, if_false, decide_false, Bool.false_or, Bool.not_false, Bool.true_and]
+      unfold flagDenotes Restic.Model.CheckSubset.checkFlagsNT
+      cases hsl : Restic.Model.CheckSubset.stringToIntSlice s with
+      | error e =>
+        simp only
+        by_cases hpc : s.getLast? = some 37
+        · simp only [hpc, if_true]
+          cases pct <;> decide
+        · simp only [hpc, if_false]
+          cases hp : parseBytes s with
+          | ok v =>
+            obtain ⟨hd, h0, hlt⟩ := (parseBytes_ok_iff s v).mp hp
+            simp only [hd]
+            by_cases hv : v ≤ 0
+            · simp only [hv, if_true]
+              have : ¬ (0 < v) := by omega
+              simp [this]
+            · simp only [hv, if_false]
+              have : 0 < v := by omega
+              simp [this, two63, hlt]
+          | err e' =>
+            simp only
+            cases hd : sizeDenotes s with
+            | none => decide
+            | some v =>
+              simp only
+              rw [sizeDenotes_of_not_ok s (by intro v hv; rw [hp] at hv; cases hv) v hd]
+              decide
+          | panic => exact absurd hp (parseBytes_no_panic s)
+      | ok ds =>
+        simp only
+        match ds with
+        | [] => rfl
+        | [_] => rfl
+        | [n, t] =>
+          simp only
+          by_cases hc : n = 0 ∨ t = 0 ∨ n > t
+          · simp only [hc, if_true]
+            have : ¬ (1 ≤ n ∧ n ≤ t) := by omega
+            by_cases h1n : 1 ≤ n <;> by_cases hnt : n ≤ t <;> simp [h1n, hnt] <;> omega
+          · simp only [hc, if_false]
+            have h1n : 1 ≤ n := by omega
+            have hnt : n ≤ t := by omega
+            by_cases htM : t > M
+            · simp only [htM, if_true]
+              have : ¬ t ≤ M := by omega
+              simp [this]
+            · simp only [htM, if_false]
+              have : t ≤ M := by omega
+              simp [h1n, hnt, this]
+        | _ :: _ :: _ :: _ => rfl
+
+/-- no `--read-data-subset` value makes `checkFlags` panic: the model has no panic outcome other than
+    through `parseBytes`, which never panics (`parseBytes_no_panic`); the n/t branch is total -/
+theorem flags_total (M : Nat) (rd : Bool) (s : Str) (pct : Pct) :
+    ∃ r : FlagOut, checkFlags false M rd s pct = r := ⟨_, rfl⟩
+
+/-- the finding on the code before the fix: `NaN%` is accepted although it denotes no percentage -/
+theorem legacy_nan_accepted :
+    checkFlags true 256 false [78, 97, 78, 37] .nan = .accept ∧
+    specFlags 256 false [78, 97, 78, 37] .nan (checkFlags true 256 false [78, 97, 78, 37] .nan) = false ∧
+    checkFlags false 256 false [78, 97, 78, 37] .nan = .pctRange := by decide
+
+/-! ## T1: facts regenerated from the current source -/
+
+/-- the unit suffixes `ParseBytes` switches on are exactly the ones of the model -/
+theorem parseBytes_suffixes_match_source :
+    Restic.Gen.ParseBytes_cases = ["'b'", "'B'", "'k'", "'K'", "'m'", "'M'", "'g'", "'G'", "'t'", "'T'", "default"] := by decide
+
+/-- the multipliers the current source applies (evaluated by running the real `ParseBytes` on
+    "1<suffix>") are the ones of the model -/
+theorem parseBytes_units_match_source :
+    unitOf 98 = some Restic.Gen.ui_ParseBytes_unit_b ∧ unitOf 66 = some Restic.Gen.ui_ParseBytes_unit_B ∧
+    unitOf 107 = some Restic.Gen.ui_ParseBytes_unit_k ∧ unitOf 75 = some Restic.Gen.ui_ParseBytes_unit_K ∧
+    unitOf 109 = some Restic.Gen.ui_ParseBytes_unit_m ∧ unitOf 77 = some Restic.Gen.ui_ParseBytes_unit_M ∧
+    unitOf 103 = some Restic.Gen.ui_ParseBytes_unit_g ∧ unitOf 71 = some Restic.Gen.ui_ParseBytes_unit_G ∧
+    unitOf 116 = some Restic.Gen.ui_ParseBytes_unit_t ∧ unitOf 84 = some Restic.Gen.ui_ParseBytes_unit_T := by decide
+
+/-- the unit letters of `ParseDuration` -/
+theorem parseDuration_units_match_source :
+    Restic.Gen.ParseDuration_cases = ["'y'", "'m'", "'d'", "'h'", "default"] := by decide
+
+/-- `nextNumber` contains no call of `panic` any more (fails to build against the code before the fix of F1) -/
+theorem nextNumber_does_not_panic : "panic" ∉ Restic.Gen.nextNumber_calls := by decide
+
+/-! ## Non-vacuity -/
+
+example : parseDuration false [49, 121, 53, 109, 55, 100, 50, 104] = .ok ⟨2, 7, 5, 1⟩ := by decide            -- "1y5m7d2h"
+example : parseDuration false [32, 45, 51, 100, 52, 100, 10] = .ok ⟨0, 4, 0, 0⟩ := by decide                  -- " -3d4d\n": last value wins
+example : parseDuration false [53, 120] = .err .invalidUnit := by decide
+example : parseDuration false [53] = .err .noUnit := by decide
+example : parseBytes [56, 51, 56, 56, 54, 48, 55, 84] = .ok 9223370937343148032 := by decide                   -- "8388607T"
+example : parseBytes [56, 51, 56, 56, 54, 48, 56, 84] = .err .range := by decide                              -- "8388608T" = 2^63
+example : parseBytes [45, 49, 75] = .err .range := by decide                                                  -- "-1K"
+example : policyCountSet unlimited = .ok (-1) := by decide
+example : policyCountSet [45, 49] = .err .negative := by decide
+example : optionsParse [[65, 61, 49], [97, 32, 61, 32, 49]] = .ok [([97], [49])] := by decide                 -- "A=1", "a = 1"
+example : optionsParse [[97, 61, 49], [97, 61, 50]] = .err .dupKey := by decide
+example : splitShellStrings [97, 32, 34, 98, 32, 99, 34, 32, 100] = .ok [[97], [98, 32, 99], [100]] := by decide  -- a "b c" d
+example : splitShellStrings [97, 32, 39, 98] = .err .unterminatedSingle := by decide
+example : checkFlags false 256 false [51, 47, 55] .parseErr = .accept := by decide                            -- "3/7"
+example : checkFlags false 256 false [53, 48, 48, 75] .parseErr = .accept := by decide                        -- "500K"
+
 end Restic.Props.C49
